@@ -533,18 +533,20 @@ func (x *pmmx) ruleAllocMarks() {
 	z := x.z
 	invalid, _ := namedConstUint(m, "mm", "InvalidFrame")
 	nret := 0
-	for _, rn := range g.Returns() {
-		r0 := g.Ins[rn].(*ssa.Return).Results[0]
+	for _, rc := range g.ReturnCases() {
+		rn := rc.Ret
+		r0 := rc.Vals[0]
 		if k, ok := constUint64(r0); ok && k == invalid {
 			continue
 		}
 		key := fmt.Sprintf("alloc-return %s #%d", m.fnName(x.bAlloc), nret)
 		nret++
-		facts := g.FactsAt(rn)
+		facts := g.CaseFacts(rc)
 		hasFree := hasFact(facts, func(f Fact) bool {
 			return cmpMatch(f, token.NEQ, func(v ssa.Value) bool { return isLoadOfField(v, x.freeCount) }, isZeroConst)
 		})
 		var maskV ssa.Value
+		var testIns ssa.Instruction
 		bitFree := hasFact(facts, func(f Fact) bool {
 			if f.Op != token.EQL || f.Y == nil {
 				return false
@@ -552,6 +554,10 @@ func (x *pmmx) ruleAllocMarks() {
 			for _, pr := range [][2]ssa.Value{{f.X, f.Y}, {f.Y, f.X}} {
 				if b, ok := pr[0].(*ssa.BinOp); ok && b.Op == token.AND && isZeroConst(pr[1]) {
 					maskV = b.Y
+					testIns = b
+					if _, isLoad := stripConv(b.Y).(*ssa.UnOp); isLoad {
+						maskV = b.X // mask & block
+					}
 					return true
 				}
 			}
@@ -561,7 +567,7 @@ func (x *pmmx) ruleAllocMarks() {
 		for _, bs := range x.bitStores(g) {
 			bs := bs
 			if bs.kind == "set" {
-				if ok, _ := g.MustPassBefore(rn, func(n int) bool { return n == bs.n }); ok {
+				if g.CaseMustPassBefore(rc, func(n int) bool { return n == bs.n }) {
 					setStore = &bs
 				}
 			}
@@ -578,56 +584,27 @@ func (x *pmmx) ruleAllocMarks() {
 			bad = "the bit that is set is not the bit that was tested"
 		}
 		if bad == "" {
-			// returned = pool.startFrame + 64*blockIndex + blockOffset with the same blockIndex as the store
+			// The scan in induction form: in iteration T of the innermost loop
+			// the mask has its bit at position B(T) (bit 63 is the first frame
+			// of the word); the frame returned must be
+			// pool.startFrame + 64*word + (63 - B) for the word that was stored.
 			ia := setStore.st.Addr.(*ssa.IndexAddr)
-			idx := z.Of(ia.Index)
-			ret := z.Of(r0)
-			maskPhi, _ := maskV.(*ssa.Phi)
-			var offPhi *ssa.Phi
-			if maskPhi != nil {
-				for _, in := range maskPhi.Block().Instrs {
-					if p, ok := in.(*ssa.Phi); ok && p != maskPhi && isIntegral(p.Type()) {
-						// candidate offset counter: [0, p+1]
-						zero, inc := false, false
-						for _, e := range p.Edges {
-							if k, ok := constInt64(e); ok && k == 0 {
-								zero = true
-							}
-							if b, ok := e.(*ssa.BinOp); ok && b.Op == token.ADD && b.X == ssa.Value(p) {
-								if k, ok := constInt64(b.Y); ok && k == 1 {
-									inc = true
-								}
-							}
-						}
-						if zero && inc {
-							offPhi = p
-						}
+			lf, inLoop := g.loopFormAt(z, testIns.Block())
+			if !inLoop {
+				bad = "cannot find the loop that scans a bitmap word"
+			} else {
+				idx := z.Of(ia.Index)
+				ret := z.Of(r0)
+				B, okB := bitPosition(lf, z, maskV)
+				if !okB {
+					bad = "cannot express the scan mask as a single bit at a position depending on the loop counter (mask = 1 << (63 - offset))"
+				} else {
+					want := polyAtom("pool.startFrame").add(idx.mul(polyConst(64)), 1).add(polyConst(63), 1).add(B, -1)
+					if !ret.equal(want) {
+						bad = "the returned frame is " + ret.String() + " but the bit that was tested and set is bit " + B.String() + " of word " + idx.String() + " (expected " + want.String() + ")"
 					}
 				}
-			}
-			switch {
-			case maskPhi == nil || offPhi == nil:
-				bad = "cannot find the (mask, bit offset) loop pair that scans a bitmap word"
-			default:
-				// mask: [1<<63, mask>>1]
-				init, step := false, false
-				for _, e := range maskPhi.Edges {
-					if k, ok := constUint64(e); ok && k == 1<<63 {
-						init = true
-					}
-					if b, ok := e.(*ssa.BinOp); ok && b.Op == token.SHR && b.X == ssa.Value(maskPhi) {
-						if k, ok := constInt64(b.Y); ok && k == 1 {
-							step = true
-						}
-					}
-				}
-				want := polyAtom("pool.startFrame").add(idx.mul(polyConst(64)), 1).add(polyAtom(z.defaultAtom(offPhi)), 1)
-				switch {
-				case !init || !step:
-					bad = "the scan mask does not start at bit 63 and move right by one per offset step (mask = 1 << (63 - offset))"
-				case !ret.equal(want):
-					bad = "the returned frame is " + ret.String() + " but the bit that was set is word " + idx.String() + ", offset " + z.defaultAtom(offPhi) + " (expected " + want.String() + ")"
-				}
+				lf.Done()
 			}
 		}
 		c.check(bad == "", "C01.R4", key, "returned frame = startFrame + 64*word + offset of the bit that was tested clear and then set, under freeCount != 0", bad, g.posOf(rn))
@@ -676,6 +653,74 @@ func (x *pmmx) ruleAllocMarks() {
 		}
 		c.check(bad == "", "C01.R4", key, fmt.Sprintf("%d bitmap store(s) use word fdiv6(frame-start) and bit 63-((frame-start) mod 64), the encoding of the allocation scan", nb), bad, m.pos(fn.Pos()))
 	}
+}
+
+// bitPosition expresses a single-bit mask as the position of its bit, a
+// polynomial in the loop's iteration number: a mask variable that starts at
+// 1<<k and is shifted by one per iteration, or 1<<k shifted by an expression.
+func bitPosition(lf *LoopForm, z *Polyizer, mask ssa.Value) (Poly, bool) {
+	pow2 := func(v ssa.Value) (int64, bool) {
+		k, ok := constUint64(v)
+		if !ok || k == 0 || k&(k-1) != 0 {
+			return 0, false
+		}
+		n := int64(0)
+		for k > 1 {
+			k >>= 1
+			n++
+		}
+		return n, true
+	}
+	v := stripConv(mask)
+	if phi, ok := v.(*ssa.Phi); ok && phi.Block() == lf.Header {
+		var k int64
+		haveInit, dir := false, int64(0)
+		for i, e := range phi.Edges {
+			if !lf.Body[lf.Header.Preds[i]] {
+				if n, ok := pow2(e); ok && !haveInit {
+					k, haveInit = n, true
+				} else {
+					return nil, false
+				}
+				continue
+			}
+			b, ok := stripConv(e).(*ssa.BinOp)
+			if !ok || stripConv(b.X) != ssa.Value(phi) {
+				return nil, false
+			}
+			one, ok := constInt64(b.Y)
+			if !ok || one != 1 {
+				return nil, false
+			}
+			d := int64(0)
+			switch b.Op {
+			case token.SHR:
+				d = -1
+			case token.SHL:
+				d = 1
+			default:
+				return nil, false
+			}
+			if dir != 0 && dir != d {
+				return nil, false
+			}
+			dir = d
+		}
+		if !haveInit || dir == 0 {
+			return nil, false
+		}
+		return polyConst(k).add(polyAtom(loopT).mul(polyConst(dir)), 1), true
+	}
+	if b, ok := v.(*ssa.BinOp); ok && (b.Op == token.SHL || b.Op == token.SHR) {
+		if k, ok := pow2(b.X); ok {
+			sh := z.Of(b.Y)
+			if b.Op == token.SHL {
+				return polyConst(k).add(sh, 1), true
+			}
+			return polyConst(k).add(sh, -1), true
+		}
+	}
+	return nil, false
 }
 
 func (x *pmmx) ruleClearOnlyByFree() {
@@ -986,44 +1031,28 @@ func runC02(c *Ctx) {
 					bad = "a replayed allocation can run before the cursor state has been reset"
 				}
 			}
-			// loop bound: i < count with count loaded from allocCount before the reset
-			boundOK := hasFact(gr.FactsAt(cn), func(f Fact) bool {
-				if f.Y == nil || (f.Op != token.LSS && f.Op != token.GTR) {
-					return false
-				}
-				bound := f.Y
-				ctr := f.X
-				if f.Op == token.GTR {
-					bound, ctr = f.X, f.Y
-				}
-				phi, ok := ctr.(*ssa.Phi)
-				if !ok {
-					return false
-				}
-				zero, inc := false, false
-				for _, e := range phi.Edges {
-					if isZeroConst(e) {
-						zero = true
-					} else if b, ok := e.(*ssa.BinOp); ok && b.Op == token.ADD && b.X == ssa.Value(phi) {
-						if k, ok := constInt64(b.Y); ok && k == 1 {
-							inc = true
-						}
+			// trip count: the value of allocCount loaded before the reset
+			boundOK := false
+			zr := &Polyizer{}
+			if lf, ok := gr.loopFormAt(zr, gr.Ins[cn].Block()); ok {
+				for _, bound := range lf.tripValues(gr) {
+					if !isLoadOfField(bound, x.allocCount) {
+						continue
+					}
+					ld, ok := stripConv(bound).(ssa.Instruction)
+					if !ok {
+						continue
+					}
+					// the load precedes the reset store and is not repeated in the loop
+					after := gr.Reach(gr.Succ[cntStores[0]], nil, nil)
+					if !after[gr.Idx[ld]] {
+						boundOK = true
 					}
 				}
-				if !zero || !inc || !isLoadOfField(bound, x.allocCount) {
-					return false
-				}
-				ld, ok := stripConv(bound).(ssa.Instruction)
-				if !ok {
-					return false
-				}
-				// the load precedes the reset store and is not repeated in the loop
-				ln := gr.Idx[ld]
-				after := gr.Reach(gr.Succ[cntStores[0]], nil, nil)
-				return !after[ln]
-			})
+				lf.Done()
+			}
 			if bad == "" && !boundOK {
-				bad = "the replay loop is not `for i := 0; i < n; i++` with n loaded from allocCount before it is reset"
+				bad = "the replay loop does not run allocCount times, with allocCount read before it is reset"
 			}
 			// the frame that is marked is the replayed frame
 		}
@@ -1191,6 +1220,10 @@ func runC03(c *Ctx) {
 				report("bitmap-words "+m.fnName(v), val, wordsForms, "freeBitmapHdr.Len", "the bitmap does not have one bit per frame of the pool (the last frames index past it)", g.posOf(n))
 			case strings.HasSuffix(ps, ".freeBitmapHdr.Cap"):
 				okc := val.String() == strings.TrimSuffix(ps, ".Cap")+".Len" || strings.HasSuffix(val.String(), "freeBitmapHdr.Len")
+				for _, w := range wordsForms {
+					// the same word count that Len is required to be
+					okc = okc || val.equal(w)
+				}
 				c.check(okc, "C03.R1", "bitmap-cap "+m.fnName(v), "Cap = Len", "bitmap capacity is not its length: "+val.String(), g.posOf(n))
 			case isCell && cell.Comment == "requiredBitmapBytes":
 				seen["required"] = true
@@ -1273,8 +1306,9 @@ func (x *pmmx) c03r2() {
 	// error returns
 	errGlobals := map[*ssa.Global]bool{}
 	nerr := 0
-	for _, rn := range g.Returns() {
-		r := g.Ins[rn].(*ssa.Return).Results[0]
+	for _, rc := range g.ReturnCases() {
+		rn := rc.Ret
+		r := rc.Vals[0]
 		if isNilConst(r) {
 			// success: must have passed the stores
 			continue
@@ -1294,7 +1328,7 @@ func (x *pmmx) c03r2() {
 		// no allocator store on any path to this return
 		dirty := false
 		for _, sn := range stores {
-			if g.Reach(g.Succ[sn], nil, nil)[rn] {
+			if g.CaseReachedFrom(sn, rc) {
 				dirty = true
 			}
 		}
